@@ -140,12 +140,15 @@ def build_store(case: dict, rec: Optional["Rec"] = None):
     from clematis.graph.store import InMemoryGraphStore, Node, Edge
 
     class TracedStore(InMemoryGraphStore):
+        _rec = None  # recorder of the call in progress (set by call_real)
+
         def csr(self, gid):
-            if rec is not None:
-                rec.begin(gid)
+            if self._rec is not None:
+                self._rec.begin(gid)
             return super().csr(gid)
 
     store = TracedStore()
+    store._rec = rec
     for g in case["graphs"]:
         store.ensure(g["gid"])
         nodes = []
@@ -283,10 +286,13 @@ METRIC_KEYS = ["pops", "iters", "propagations", "radius_cap_hits", "layer_cap_hi
                "max_delta", "cache_hits", "cache_misses", "t1_frontier_evicted", "t1_dedup_hits", "t1_visited_evicted"]
 
 
-def call_real(case: dict, active: List[str], trace: bool) -> dict:
+def call_real(case: dict, active: List[str], trace: bool, store=None) -> dict:
+    """One real `t1_propagate` call; on a fresh store built from `case`, or on the given (history) store."""
     from clematis.engine.stages import t1 as t1mod
     rec = Rec()
-    store = build_store(case, rec if trace else None)
+    if store is None:
+        store = build_store(case, None)
+    store._rec = rec if trace else None
     before = snapshot_store(store)
     ctx = build_ctx(case)
     cfg_before = repr(ctx.cfg)
@@ -300,6 +306,7 @@ def call_real(case: dict, active: List[str], trace: bool) -> dict:
     finally:
         remove_shims(t1mod, saved)
         reset_cache(t1mod)
+        store._rec = None
     after = snapshot_store(store)
     created = [g for g in after if g not in before]
     pure = all(after[g] == before[g] for g in before) and all(
@@ -643,7 +650,7 @@ def eff_queue(case) -> int:
 
 class T1Comp(Component):
     name = "t1"
-    budget = {"quick": 5000, "thorough": 40000, "search": 10000}
+    budget = {"quick": 4000, "thorough": 40000, "search": 10000}
     decay_present = True
 
     def gen(self, rng: random.Random, i: int) -> dict:
@@ -961,7 +968,297 @@ def snapshot_store_loose(store) -> Any:
             for gid, g in store._graphs.items()}
 
 
-COMPONENTS = [T1Comp(), T1NoDecay(), T1Boundary(), T1Malformed()]
+# --------------------------------------------------------------------------
+# history stream: several propagations on ONE store with store edits in between
+# --------------------------------------------------------------------------
+
+def _find(lst, key):
+    for i, x in enumerate(lst):
+        if x["id"] == key:
+            return i
+    return None
+
+
+def apply_ops_shadow(graphs: List[dict], ops: List[list]) -> List[dict]:
+    """The graph contents after `ops`, following dict semantics of the store (assignment to an existing key keeps
+    its position, a new key is appended, delete + re-add moves to the end)."""
+    gs = copy.deepcopy(graphs)
+    for op in ops:
+        kind, gid = op[0], op[1]
+        g = next((x for x in gs if x["gid"] == gid), None)
+        if g is None:
+            continue
+        if kind in ("upsert_edge", "delta_edge"):
+            e = dict(op[2])
+            i = _find(g["edges"], e["id"])
+            if i is None:
+                g["edges"].append(e)
+            else:
+                g["edges"][i] = e
+        elif kind == "mutate_edge":
+            i = _find(g["edges"], op[2])
+            if i is not None:
+                g["edges"][i] = dict(g["edges"][i], **{op[3]: op[4]})
+        elif kind == "del_edge":
+            i = _find(g["edges"], op[2])
+            if i is not None:
+                del g["edges"][i]
+        elif kind == "upsert_node":
+            n = dict(op[2])
+            i = _find(g["nodes"], n["id"])
+            if i is None:
+                g["nodes"].append(n)
+            else:
+                g["nodes"][i] = n
+        elif kind == "mutate_label":
+            i = _find(g["nodes"], op[2])
+            if i is not None:
+                g["nodes"][i] = dict(g["nodes"][i], label=op[3])
+        elif kind == "del_node":
+            i = _find(g["nodes"], op[2])
+            if i is not None:
+                del g["nodes"][i]
+    return gs
+
+
+def apply_ops_real(store, ops: List[list]) -> None:
+    from clematis.graph.store import Node, Edge
+    for op in ops:
+        kind, gid = op[0], op[1]
+        if gid not in store._graphs:
+            continue
+        g = store._graphs[gid]
+        if kind == "upsert_edge":
+            e = op[2]
+            store.upsert_edges(gid, [Edge(id=e["id"], src=e["src"], dst=e["dst"], weight=_f(e["w"]), rel=e["rel"])])
+        elif kind == "delta_edge":
+            e = op[2]
+            store.apply_deltas(gid, [{"op": "upsert_edge", "id": e["id"], "src": e["src"], "dst": e["dst"],
+                                      "weight": _f(e["w"]), "rel": e["rel"]}])
+        elif kind == "mutate_edge":
+            if op[2] in g.edges:
+                field, val = op[3], op[4]
+                setattr(g.edges[op[2]], "weight" if field == "w" else field, _f(val) if field == "w" else val)
+        elif kind == "del_edge":
+            g.edges.pop(op[2], None)
+        elif kind == "upsert_node":
+            n = op[2]
+            tags = n.get("tags")
+            store.upsert_nodes(gid, [Node(id=n["id"], label=n.get("label"),
+                                          attrs={"tags": list(tags)} if isinstance(tags, list) else {})])
+        elif kind == "mutate_label":
+            if op[2] in g.nodes:
+                g.nodes[op[2]].label = op[3]
+        elif kind == "del_node":
+            g.nodes.pop(op[2], None)
+
+
+class T1History(T1Comp):
+    """2-4 real `t1_propagate` calls on ONE store instance with store edits in between (same-id edge re-point /
+    re-weight / relation change through `upsert_edges`, `apply_deltas` and direct mutation; label changes;
+    delete + add keeping the counts; count-changing edits).  The T1 result cache is disabled in this stream
+    (stale results of the result cache are C05's).  Every call is compared exactly with the model run on the
+    CURRENT graph contents and with the same call on a fresh store built from those contents; all Lean
+    monitors are evaluated on every call of the history."""
+    name = "t1_history"
+    budget = {"quick": 450, "thorough": 5000, "search": 1500}
+
+    def gen(self, rng: random.Random, i: int) -> dict:
+        case = gen_case(rng, i, rng.random() < 0.85)
+        case["t1"]["cache"] = {"enabled": False}
+        if "perf" in case:
+            case["perf"].pop("parallel", None)
+        case["active"] = [a for a in case["active"] if a != "g:unknown"] or [case["graphs"][0]["gid"]]
+        # histories need propagation to be worth anything: loosen the caps most of the time
+        if rng.random() < 0.7:
+            for k in ("radius_cap", "iter_cap", "iter_cap_layers", "relax_cap"):
+                case["t1"].pop(k, None)
+            case["t1"]["queue_budget"] = rng.choice([20, 50, 100])
+            case.pop("slice", None)
+        cur = copy.deepcopy(case["graphs"])
+        words = sorted({n["label"] for g in cur for n in g["nodes"] if n.get("label")} | set(WORDS[:4]))
+        steps = []
+        for _ in range(rng.choice([1, 1, 2, 3])):
+            ops: List[list] = []
+            for _ in range(rng.choice([1, 1, 2, 3])):
+                g = rng.choice(cur)
+                gid = g["gid"]
+                n_before = len(ops)
+                ids = [n["id"] for n in g["nodes"]] or ["a"]
+                r = rng.random()
+                if g["edges"] and r < 0.55:
+                    # same-id edit of an existing edge: counts unchanged
+                    e = dict(rng.choice(g["edges"]))
+                    what = rng.choice(["dst", "dst", "w", "w", "rel", "src"])
+                    if what == "dst":
+                        e["dst"] = rng.choice(ids + [rng.choice(IDS)])
+                    elif what == "src":
+                        e["src"] = rng.choice(ids)
+                    elif what == "w":
+                        e["w"] = f2b(rng.choice([0.0, 1.0, 0.5, -0.5, 0.9, 1e-7, 2.0]))
+                    else:
+                        e["rel"] = rng.choice(RELS)
+                    how = rng.choice(["upsert_edge", "delta_edge", "mutate_edge"])
+                    if how == "mutate_edge":
+                        ops.append(["mutate_edge", gid, e["id"], what, e[what]])
+                    else:
+                        ops.append([how, gid, e])
+                elif g["edges"] and r < 0.67:
+                    # delete one edge, add another: counts unchanged
+                    old = rng.choice(g["edges"])
+                    ops.append(["del_edge", gid, old["id"]])
+                    ops.append(["upsert_edge", gid, {"id": f"n{rng.randrange(1000)}", "src": rng.choice(ids),
+                                                     "dst": rng.choice(ids), "w": f2b(gen_weight(rng)),
+                                                     "rel": rng.choice(RELS[:3])}])
+                elif r < 0.8:
+                    # label change of an existing node (same id): counts unchanged
+                    n = rng.choice(g["nodes"]) if g["nodes"] else None
+                    if n is not None:
+                        lab = rng.choice(words + [None])
+                        if rng.random() < 0.5:
+                            ops.append(["mutate_label", gid, n["id"], lab])
+                        else:
+                            ops.append(["upsert_node", gid, {"id": n["id"], "label": lab}])
+                elif r < 0.92:
+                    # count-changing edits
+                    if rng.random() < 0.6:
+                        ops.append([rng.choice(["upsert_edge", "delta_edge"]), gid,
+                                    {"id": f"x{rng.randrange(1000)}", "src": rng.choice(ids), "dst": rng.choice(ids + [rng.choice(IDS)]),
+                                     "w": f2b(gen_weight(rng)), "rel": rng.choice(RELS[:3])}])
+                    else:
+                        ops.append(["upsert_node", gid, {"id": rng.choice(IDS), "label": rng.choice(words)}])
+                elif g["edges"]:
+                    ops.append(["del_edge", gid, rng.choice(g["edges"])["id"]])
+                cur = apply_ops_shadow(cur, ops[n_before:])
+            text = case["text"] if rng.random() < 0.8 else gen_text(rng, words, cur)
+            steps.append({"ops": ops, "text": text})
+        case["steps"] = steps
+        return case
+
+    # -- the calls of a history ------------------------------------------------
+    def call_cases(self, case: dict) -> List[dict]:
+        base = {k: v for k, v in case.items() if k != "steps"}
+        out = [base]
+        cur = case["graphs"]
+        for st in case.get("steps", []):
+            cur = apply_ops_shadow(cur, st["ops"])
+            out.append(dict(base, graphs=cur, text=st["text"]))
+        return out
+
+    def impl(self, case: dict) -> Any:
+        calls = self.call_cases(case)
+        store = build_store(case, None)
+        outs = []
+        for k, ck in enumerate(calls):
+            if k > 0:
+                apply_ops_real(store, case["steps"][k - 1]["ops"])
+            rec: Dict[str, Any] = {}
+            try:
+                rec["hist"] = call_real(ck, ck["active"], True, store=store)
+            except Exception as e:
+                rec["hist"] = {"raised_exc": type(e).__name__, "msg": str(e)[:200]}
+            try:
+                rec["fresh"] = call_real(ck, ck["active"], False)
+            except Exception as e:
+                rec["fresh"] = {"raised_exc": type(e).__name__, "msg": str(e)[:200]}
+            # the shadow contents must be what the store really holds (harness self-check)
+            rec["shadow_ok"] = snapshot_contents(store) == snapshot_contents(build_store(ck, None))
+            if "singles" not in rec["hist"]:
+                rec["hist"]["singles"] = None
+            outs.append(rec)
+        return {"calls": outs}
+
+    def request(self, case: dict) -> dict:
+        return {"c": "t1.batch", "reqs": [model_request(ck, ck["active"]) for ck in self.call_cases(case)]}
+
+    def compare(self, case, impl_out, model_out) -> Optional[str]:
+        if isinstance(model_out, dict) and "__model_err__" in model_out:
+            return f"model error {model_out['__model_err__']}"
+        if isinstance(impl_out, dict) and "__raised__" in impl_out:
+            return f"harness/impl raised {impl_out['__raised__']}: {impl_out.get('msg')}"
+        for k, (ck, rec, mo) in enumerate(zip(self.call_cases(case), impl_out["calls"], model_out)):
+            d = T1Comp.compare(self, ck, rec["hist"], mo)
+            if d is not None:
+                return f"call {k} of the history (after {k} edit step(s)): {d}"
+        return None
+
+    def monitor_requests(self, case, impl_out) -> List[Tuple[str, dict]]:
+        rq: List[Tuple[str, dict]] = []
+        for k, (ck, rec) in enumerate(zip(self.call_cases(case), impl_out["calls"])):
+            rq += [(name, r) for name, r in T1Comp.monitor_requests(self, ck, rec["hist"])]
+        return rq
+
+    def monitors(self, case, impl_out):
+        res = []
+        for k, (ck, rec) in enumerate(zip(self.call_cases(case), impl_out["calls"])):
+            res.append(("history_shadow_selfcheck", bool(rec["shadow_ok"]),
+                        f"harness: shadow graph contents differ from the store after step {k}"))
+            h, f = rec["hist"], rec["fresh"]
+            for name, ok, detail in T1Comp.monitors(self, ck, h):
+                res.append((name, ok, f"call {k}: {detail}"))
+            if "raised_exc" in h or "raised_exc" in f:
+                continue
+            same = (h["deltas"] == f["deltas"] and h["metrics"] == f["metrics"])
+            res.append(("history_equals_fresh_store", same,
+                        f"call {k} (after {k} edit step(s)) on the long-lived store differs from the same call on a fresh "
+                        f"store with the same contents: deltas {h['deltas']} vs {f['deltas']}; "
+                        f"counters {[h['metrics'][x] for x in ('pops', 'propagations', 'node_budget_hits')]} vs "
+                        f"{[f['metrics'][x] for x in ('pops', 'propagations', 'node_budget_hits')]}"))
+        return res
+
+    def tags(self, case, impl_out):
+        t = set()
+        for k, (ck, rec) in enumerate(zip(self.call_cases(case), impl_out["calls"])):
+            if "raised_exc" in rec["hist"]:
+                t.add("raised:" + rec["hist"]["raised_exc"])
+                continue
+            m = rec["hist"]["metrics"]
+            if k > 0 and m["propagations"] > 0:
+                t.add("relax_after_edit")
+            if k > 0 and rec["hist"]["deltas"] != impl_out["calls"][k - 1]["hist"].get("deltas"):
+                t.add("result_changed_by_edit")
+        for st in case.get("steps", []):
+            for op in st["ops"]:
+                t.add("op:" + op[0])
+        cur = case["graphs"]
+        for st in case.get("steps", []):
+            nxt = apply_ops_shadow(cur, st["ops"])
+            if ([len(g["nodes"]) for g in cur], [len(g["edges"]) for g in cur]) == \
+                    ([len(g["nodes"]) for g in nxt], [len(g["edges"]) for g in nxt]) and nxt != cur:
+                t.add("same_count_edit")
+            cur = nxt
+        t.add(f"calls:{len(case.get('steps', [])) + 1}")
+        return sorted(t) or ["default"]
+
+    def shrink(self, case):
+        steps = case.get("steps", [])
+        for i in range(len(steps)):
+            yield dict(case, steps=steps[:i] + steps[i + 1:])
+            for j in range(len(steps[i]["ops"])):
+                st = dict(steps[i], ops=steps[i]["ops"][:j] + steps[i]["ops"][j + 1:])
+                yield dict(case, steps=steps[:i] + [st] + steps[i + 1:])
+        for gi, g in enumerate(case["graphs"]):
+            if len(case["graphs"]) > 1:
+                gs = case["graphs"][:gi] + case["graphs"][gi + 1:]
+                yield dict(case, graphs=gs, active=[a for a in case["active"] if a != g["gid"]] or [gs[0]["gid"]])
+            for ei in range(len(g["edges"])):
+                g2 = dict(g, edges=g["edges"][:ei] + g["edges"][ei + 1:])
+                yield dict(case, graphs=case["graphs"][:gi] + [g2] + case["graphs"][gi + 1:])
+        for k in ("perf", "slice"):
+            if k in case:
+                c2 = dict(case)
+                del c2[k]
+                yield c2
+
+
+def snapshot_contents(store) -> Any:
+    """graph contents only (what T1 reads), in dict order; etags excluded"""
+    return {gid: {"n": [(k, n.id, n.label, repr(getattr(n, "attrs", None))) for k, n in g.nodes.items()],
+                  "e": [(k, e.id, e.src, e.dst, f2b(e.weight), e.rel) for k, e in g.edges.items()]}
+            for gid, g in store._graphs.items()}
+
+
+COMPONENTS = [T1Comp(), T1NoDecay(), T1Boundary(), T1Malformed(), T1History()]
 
 
 def run(ctx: Ctx) -> None:
